@@ -25,7 +25,7 @@ INTEGRATE_KEYS = [
 DEFAULT_WEIGHTS = {
     "root": 2.0, "slice": 2.0, "multiply": 5.0, "product": 1.5, "get_density": 2.0, "normalize": 1.0,
     "marginal": 1.0, "linear_sum": 0.7, "condition_on": 1.2, "cond_x": 1.5, "set_y": 1.2, "affine": 3.0,
-    "update": 1.0, "update_sigma": 0.5, "obs": 6.0, "truncate": 0.8,
+    "update": 1.0, "update_sigma": 0.5, "obs": 6.0, "truncate": 0.8, "copy": 0.6,
 }
 
 
@@ -63,7 +63,7 @@ def swarm(seed, tier, profile="general"):
                 wts[k] = 0.0
     if profile == "sample":
         wts = {"root": 2.0, "slice": 2.0, "multiply": 1.0, "get_density": 2.5, "marginal": 1.5, "linear_sum": 1.0,
-               "cond_x": 1.5, "affine": 2.5, "update": 1.5, "normalize": 0.5, "obs": 1.0, "sample": 8.0}
+               "cond_x": 1.5, "affine": 2.5, "update": 1.5, "normalize": 0.5, "obs": 1.0, "sample": 8.0, "copy": 0.8}
         for k in ("slice", "multiply", "marginal", "linear_sum", "cond_x", "affine", "update"):
             if r.coin(0.3):
                 wts[k] = 0.0
@@ -344,6 +344,12 @@ class Gen:
         diag = "Diag" in c.cls
         R = 1 if c.u is not None else c.R
         return {"op": "update_sigma", "a": c.id, "Sigma": self.r.spd(R, int(c.obj.Dy), self.cfg["cond_max"], diag=diag)}
+
+    def g_copy(self):
+        s = self.pick(pred=lambda s: s.kind != "trunc")
+        if s is None:
+            return None
+        return {"op": "copy", "a": s.id, "how": self.r.wchoice(["copy", "deepcopy", "pickle"], [3, 1, 1]), "out": self.nid()}
 
     def g_truncate(self):
         r = self.r
